@@ -125,15 +125,29 @@ func c13Csv(xs []uint64) string {
 	return strings.Join(ss, ",")
 }
 
-// c13Call runs computeNextPriceWindow and reports a run-time panic instead of crashing.
+// c13Call evaluates the price/window step of one dimension (computeNextPriceWindow) through
+// the exported Manager.ComputeNext, so that the harness does not depend on how the package
+// splits that step internally: dimension 0 of a manager holds (price, window, consumed), its
+// timestamp is -since (two's complement) and the call is made at time 0, hence the elapsed
+// seconds are exactly `since` for every 64-bit value. A run-time panic is reported.
 func c13Call(w window.Window, consumed, price, target, denom, minP, since uint64) (p uint64, nw window.Window, panicked string) {
 	defer func() {
 		if e := recover(); e != nil {
 			panicked = fmt.Sprint(e)
 		}
 	}()
-	p, nw = computeNextPriceWindow(w, consumed, price, target, denom, minP, since)
-	return
+	raw := make([]byte, 8+fees.FeeDimensions*dimensionStateLen)
+	binary.BigEndian.PutUint64(raw[0:8], uint64(0)-since)
+	binary.BigEndian.PutUint64(raw[8:16], price)
+	copy(raw[16:16+window.WindowSliceSize], w[:])
+	binary.BigEndian.PutUint64(raw[16+window.WindowSliceSize:], consumed)
+	rules := &c13Rules{
+		target: fees.Dimensions{target, 1, 1, 1, 1},
+		denom:  fees.Dimensions{denom, 1, 1, 1, 1},
+		min:    fees.Dimensions{minP, 0, 0, 0, 0},
+	}
+	m := NewManager(raw).ComputeNext(0, rules)
+	return m.UnitPrice(0), m.Window(0), ""
 }
 
 func c13Next(m *Manager, t int64, r Rules) (out *Manager, panicked string) {
